@@ -119,13 +119,15 @@ var vPathPool = []string{
 	"/a/", "/:x/*rest", "/:x/", "/a/b/", "/:x/:y",
 	// ':' and '*' in the middle of a segment are literals (custom methods like /items:batchGet)
 	"/a/b:c", "/a/b*x", "/ab:c",
+	// last segments sharing a prefix below a wildcard: removing one merges tree nodes that carry wildcard names
+	"/a/:x/cd", "/:x/bc",
 }
 
 // clustered pools: expressions sharing one prefix (so that nodes with children gain and lose values) plus generic
 // fallbacks further up the tree
 var (
 	vClusterPrefixes = []string{"/a", "/:x", "/x"}
-	vClusterSuffixes = []string{"", "/", "/*rest", "/**", "/:y", "/c", "/:y/c"}
+	vClusterSuffixes = []string{"", "/", "/*rest", "/**", "/:y", "/c", "/:y/c", "/:y/cd"}
 	vClusterGenerics = []string{"/**", "/:x/*rest", "/:x/**", "/:x/:y", "/*rest"}
 )
 
